@@ -62,7 +62,12 @@ func init() {
 			}
 		}
 		d := model.Generate(r, prof)
-		return []byte(d.Markdown + "\x00EXPECT\x00" + d.HTML), "model/" + profile
+		var feats []string
+		for k := range d.Features {
+			feats = append(feats, k)
+		}
+		sort.Strings(feats)
+		return []byte(d.Markdown + "\x00EXPECT\x00" + d.HTML + "\x00FEAT\x00" + strings.Join(feats, ",")), "model/" + profile
 	})
 	const printable = "!\"#$%&'()*+,-./:;<=>?@[\\]^_`{|}~"
 	gen.Register("escapeall", func(r *core.Rand, index uint64, profile string) ([]byte, string) {
@@ -229,6 +234,14 @@ func (c06) Check(ctx *core.Ctx, c *core.Case) {
 			return
 		}
 		md, want := parts[0], parts[1]
+		if fp := bytes.SplitN(want, []byte("\x00FEAT\x00"), 2); len(fp) == 2 {
+			want = fp[0]
+			for _, f := range strings.Split(string(fp[1]), ",") {
+				if f != "" {
+					ctx.Inc("model:" + f)
+				}
+			}
+		}
 		variants := [][]byte{md}
 		if c.Seed%3 == 0 {
 			variants = append(variants, bytes.ReplaceAll(md, []byte("\n"), []byte("\r\n")))
